@@ -524,6 +524,50 @@ func C20(p *load.Prog, r *oblig.Run) {
 			}
 		}
 	}
+	// the walk is started for every record: in Document.Warnings no path from one element of the record loop to the
+	// next goes around the call of the walk (a `continue` for records that are neither INDI nor FAM drops the
+	// unparsable dates of sources, submitters and the header)
+	if walk != nil {
+		for _, c := range su.Calls(dw) {
+			if c.Common().StaticCallee() != walk {
+				continue
+			}
+			o2 := r.Add("R20.a", "walk started for every record", p.Pos(c.Pos()), "paths of the record loop of Document.Warnings")
+			skipped := ""
+			for _, h := range loopHeaders(dw) {
+				if !loopBlock(c.Block(), h) {
+					continue
+				}
+				seenB := map[*ssa.BasicBlock]bool{}
+				var dfs func(b *ssa.BasicBlock) bool
+				dfs = func(b *ssa.BasicBlock) bool {
+					if b == h {
+						return true
+					}
+					if seenB[b] || b == c.Block() || !loopBlock(b, h) {
+						return false
+					}
+					seenB[b] = true
+					for _, sx := range b.Succs {
+						if dfs(sx) {
+							return true
+						}
+					}
+					return false
+				}
+				for _, sx := range h.Succs {
+					if loopBlock(sx, h) && sx != c.Block() && dfs(sx) {
+						skipped = "a path of the loop over the records reaches the next record without starting the walk at " + p.Pos(c.Pos())
+					}
+				}
+			}
+			if skipped != "" {
+				o2.Fail(skipped + ": the nodes of such a record are never asked for their warnings (an unparsable date in a SOUR, SUBM or HEAD record goes unreported)")
+			} else {
+				o2.OK("every path to the next record passes the walk")
+			}
+		}
+	}
 	// R20.c
 	o = r.Add("R20.c", "SetContext before collecting", p.Pos(dw.Pos()), "context of collected warnings")
 	okCtx := false
